@@ -68,7 +68,7 @@ def run(name, pids, tier="quick"):
     try:
         for pid in pids:
             t = time.time()
-            rc, out = sh("./check %s --tier %s" % (pid, tier), cwd=V, timeout=7200)
+            rc, out = sh("./check %s --tier %s" % (pid, tier), cwd=V, timeout=2700)
             viol = [l for l in out.splitlines() if l.startswith("VIOLATION") or l.startswith("  what:")]
             res[pid] = dict(exit=rc, tier=tier, wall_s=round(time.time() - t, 1), violation_lines=viol[:6],
                             tail=[l for l in out.splitlines() if "INCONCLUSIVE" in l or "done:" in l][-3:])
